@@ -196,6 +196,28 @@ def _clone_ctor(ctx, f):
     return None, None, None
 
 
+def sync_after_draws(ctx, rep, clause="S7"):
+    """ModelBasedSearcher._get_config_not_modelbased: the internal random searcher consumes entries of restrict_configurations while it
+    draws; the copy kept by the model-based searcher (which get_state saves) is refreshed AFTER the draws, on every path that drew"""
+    from .common import node_calls
+    f = ctx.P.method("ModelBasedSearcher", "_get_config_not_modelbased")
+    cfg = cfg_of(f)
+    draws = [n.id for n in cfg.nodes if node_calls("get_config", "_random_searcher")(n, cfg)]
+    sync = {n.id for n in cfg.nodes if n.kind == "stmt" and isinstance(n.ast, ast.Assign) and U(n.ast.targets[0]) == "self._restrict_configurations"
+            and "_random_searcher" in U(n.ast.value)}
+    if not draws or not sync:
+        raise AnchorError("ModelBasedSearcher._get_config_not_modelbased: draws from the random searcher / refresh of restrict_configurations not found")
+    from ..core.facts import edge_filter
+    p_ = None
+    for d in draws:
+        p_ = p_ or cfg.path([s_ for s_, l_ in cfg.succ[d]], cfg.exit, deleted=sync, skip_labels=("exc",),
+                            edge_ok=edge_filter(["self._restrict_configurations is not None"]))
+    rep.put(p_ is None, clause, "must_follow", "ModelBasedSearcher._get_config_not_modelbased: restrict_configurations is refreshed after the random draws", f, None, "",
+            "a draw from the internal random searcher is not followed by the refresh of self._restrict_configurations: the list saved by get_state lags one "
+            "suggestion behind, a searcher restored from that state draws from a stale list and continues differently",
+            witness=cfg.describe_path(p_) if p_ else None)
+
+
 def searcher_classes(ctx):
     P = ctx.P
     base = P.cls(SEARCHER_BASE)
@@ -846,6 +868,7 @@ def run(ctx, rep, tier="quick"):
     s6(ctx, rep)
     s7(ctx, rep, sweep)
     s8(ctx, rep)
+    sync_after_draws(ctx, rep)
 
 
 # ----------------------------------------------------------------------------- S7 state coverage
